@@ -62,12 +62,28 @@ static RUN_ID: AtomicU32 = AtomicU32::new(1);
 /// run against a broken implementation (every other case hanging) still ends in minutes
 static HANGS: AtomicUsize = AtomicUsize::new(0);
 
+/// replay of a recorded case (`--replay`, used by the shrinker of ./check dozens of times on a failing input):
+/// a case that resolves does so within milliseconds, so shorter bounded waits decide just as well
+static REPLAY: std::sync::atomic::AtomicBool = std::sync::atomic::AtomicBool::new(false);
+
 fn watchdog() -> Duration {
-    if HANGS.load(Ordering::Relaxed) < 3 { WATCHDOG } else { Duration::from_millis(400) }
+    if HANGS.load(Ordering::Relaxed) >= 3 {
+        Duration::from_millis(100)
+    } else if REPLAY.load(Ordering::Relaxed) {
+        Duration::from_millis(1500)
+    } else {
+        WATCHDOG
+    }
 }
 
 fn join_watchdog() -> Duration {
-    if HANGS.load(Ordering::Relaxed) < 3 { JOIN_WATCHDOG } else { Duration::from_millis(1500) }
+    if HANGS.load(Ordering::Relaxed) >= 3 {
+        Duration::from_millis(300)
+    } else if REPLAY.load(Ordering::Relaxed) {
+        Duration::from_millis(2500)
+    } else {
+        JOIN_WATCHDOG
+    }
 }
 
 // ---------------------------------------------------------------------------------------------
@@ -1750,7 +1766,12 @@ fn gen_conc_all(rng: &mut Rng, n: usize, n_big: usize) -> Vec<Case> {
                 loop {
                     let job = jobs.lock().unwrap().pop();
                     let Some((i, (name, (cfg, plan, join_at)))) = job else { break };
-                    let line = run_conc(&rt, &cfg, plan, join_at);
+                    // the run is failing anyway (three watchdogs have expired): do not record more histories
+                    let line = if HANGS.load(Ordering::Relaxed) >= 3 {
+                        format!("hist {} {}", cfg.w, if cfg.conc { "c" } else { "s" })
+                    } else {
+                        run_conc(&rt, &cfg, plan, join_at)
+                    };
                     done.lock().unwrap().push((i, Case { name, lines: vec![line] }));
                 }
             })
@@ -1767,6 +1788,9 @@ fn gen_conc_all(rng: &mut Rng, n: usize, n_big: usize) -> Vec<Case> {
 fn main() {
     // worker-thread and task panics are part of the scenarios
     std::panic::set_hook(Box::new(|_| {}));
+    if std::env::args().any(|a| a == "--replay") {
+        REPLAY.store(true, Ordering::Relaxed);
+    }
     let rt = Runtime::new().expect("harness runtime");
     run_harness(
         |tier, rng| {
